@@ -590,25 +590,40 @@ Proof.
   intros ->. reflexivity.
 Qed.
 
-Lemma post_raise_not_traiterror d w : post_setattr d w <> PostRaise ETraitError.
+Lemma post_raise_only_mapped d w e : post_setattr d w = PostRaise e -> is_mapped d = true.
 Proof.
-  destruct d; cbn; try discriminate.
-  - destruct (if hashable w then dict_get m w else None); discriminate.
-  - destruct (match str_of w with Some s => str_get m s | None => None end); discriminate.
-  - destruct (existsb is_mapped ds); discriminate.
+  destruct d; cbn; try discriminate; try reflexivity.
+  destruct (existsb is_mapped ds); discriminate.
 Qed.
 
+(* TraitError => no effect, for every attribute whose trait is not a stand-alone Map / PrefixMap: those raise
+   TraitError("Unmappable") from post_setattr AFTER the value was stored (c056106), which an unvalidated value reaches *)
 Lemma setattr_traiterror_no_effect E c s n v s' :
+  (forall d dflt, trait_of c n = Some (d, dflt) -> is_mapped d = false) ->
   setattr E c s n v = (s', Raise ETraitError) -> s' = s.
 Proof.
-  unfold setattr. destruct (trait_of c n) as [[d dflt]|]; [|intros H; now inversion H].
+  intros Hm. unfold setattr. destruct (trait_of c n) as [[d dflt]|]; [|intros H; now inversion H].
+  specialize (Hm d dflt eq_refl).
   destruct (if is_undefined v then (if always_validated d then validate_s E c s d v else Accept v) else validate_s E c s d v) as [w| |e]; try (intros H; now inversion H).
-  pose proof (post_raise_not_traiterror d w) as Hw. pose proof (post_raise_not_traiterror d dflt) as Hd.
+  assert (Hw : forall e, post_setattr d w <> PostRaise e)
+    by (intros e He; apply post_raise_only_mapped in He; congruence).
+  assert (Hd : forall e, post_setattr d dflt <> PostRaise e)
+    by (intros e He; apply post_raise_only_mapped in He; congruence).
   destruct (post_setattr d w) as [|x|e] eqn:Hp; [intros H; inversion H|..].
-  all: destruct (get s n) as [o|].
-  all: try (destruct (pv_eqb o w); intros H; inversion H; subst; try congruence).
-  all: destruct (post_setattr d dflt) as [|y|e']; try (destruct (pv_eqb dflt w)); intros H; inversion H; subst; congruence.
+  2:{ exfalso. now apply (Hw e). }
+  destruct (get s n) as [o|].
+  - destruct (pv_eqb o w); intros H; inversion H.
+  - destruct (post_setattr d dflt) as [|y|e']; [| |exfalso; now apply (Hd e')];
+      destruct (pv_eqb dflt w); intros H; inversion H.
 Qed.
+
+(* the witness: `a.m = Undefined` on m = Map({'a': 1}) skips validation (F22), stores Undefined, and Map.post_setattr then
+   raises TraitError — a TraitError that did have an effect *)
+Lemma setattr_traiterror_effect_on_map :
+  let c := [(0, (DMap [(PStr [97], PInt 1)], PStr [97]))] in
+  let s := [(0, PStr [97]); (shadow 0, PInt 1)] in
+  exists s', setattr E0 c s 0 PUndefined = (s', Raise ETraitError) /\ s' <> s.
+Proof. eexists. split; [vm_compute; reflexivity | discriminate]. Qed.
 
 (* ---------- the invariant: nothing out of the declared domain is readable ---------- *)
 Definition Inv (E : env) (c : cls) (s : inst) : Prop :=
